@@ -311,10 +311,15 @@ type apiReq struct {
 }
 
 type apiServer struct {
-	status int
-	body   string
-	reqs   []apiReq
-	clock  *int // event counter shared with the limiter
+	status  int
+	body    string
+	headers [][2]string // further response headers of the first answer
+	// answer to every request after the first (0: the same answer again). Used with Retry-After: the
+	// throttle is over by then, so a client that re-sends on its own gets data
+	nextStatus int
+	nextBody   string
+	reqs       []apiReq
+	clock      *int // event counter shared with the limiter
 }
 
 func (s *apiServer) RoundTrip(r *http.Request) (*http.Response, error) {
@@ -324,12 +329,21 @@ func (s *apiServer) RoundTrip(r *http.Request) (*http.Response, error) {
 	}
 	s.reqs = append(s.reqs, apiReq{method: r.Method, url: r.URL.String(), path: r.URL.EscapedPath(), rawq: r.URL.RawQuery, scheme: r.URL.Scheme, host: r.URL.Host,
 		t: time.Now().UnixNano(), seq: *s.clock, ctxOK: r.Context().Value(ctxKey{}) != nil})
+	status, body, first := s.status, s.body, len(s.reqs) == 1
+	if !first && s.nextStatus != 0 {
+		status, body = s.nextStatus, s.nextBody
+	}
 	ct := "application/xml; charset=utf-8"
-	if s.status != 200 && !strings.HasPrefix(s.body, "<") {
+	if status != 200 && !strings.HasPrefix(body, "<") {
 		ct = "text/plain"
 	}
-	rs := resp(r, s.status, s.body)
+	rs := resp(r, status, body)
 	rs.Header.Set("Content-Type", ct)
+	if first {
+		for _, h := range s.headers {
+			rs.Header.Set(h[0], h[1])
+		}
+	}
 	return rs, nil
 }
 
